@@ -5,7 +5,7 @@ from ._spec_common import *
 
 PROPERTY = "C04"
 LEVEL = "proof"
-TARGETS = ['MutateAttr', 'SetAttr', 'DelAttr', 'WithAttr', 'ResetAttr', 'Reset', 'DeepCopy']
+TARGETS = ['MutateAttr', 'SetAttr', 'DelAttr', 'WithAttr', 'ResetAttr', 'Reset', 'DeepCopy', 'MutateValue', 'UpdateAttr', 'TransformAttr', 'Update', 'Transform']
 FAMILY_FILTER = ['c04.'] + STRUCTURAL
 ASSUMPTIONS = A_COMMON + [
     "clauses of other properties on the same functions are discharged by those properties' own checks",
